@@ -117,8 +117,14 @@ func (t *tracer) Subscribe() chan ITrace {
 func (t *tracer) SubscribeChannel(channel chan ITrace) chan ITrace {
 	okCh := make(chan struct{}, 1)
 	sub := subscription{channel: channel, ok: okCh}
-	t.subscription <- sub
-	<-okCh
+	select {
+	case t.subscription <- sub:
+		<-okCh
+	case <-t.done:
+		// nobody takes subscriptions any more (the caller blocked here for ever);
+		// the subscriber learns that the tracer is done the way the others did
+		close(channel)
+	}
 	return channel
 }
 
